@@ -16,6 +16,7 @@ import (
 
 const prelude = `(declare-fun strlen (Int) Int)
 (declare-fun str_empty () Int)
+(declare-fun rtype (Int) Int)
 (assert (= (strlen str_empty) 0))
 `
 
@@ -119,6 +120,11 @@ func discharge(o *Oblig, cfg *SolverCfg, idx int) {
 	st, out := runSolver(s1, runs[0])
 	cancel1()
 	final := res{runs[0].name, st, out}
+	if o.Kind == "cover" {
+		// vacuity probe: only a refutation (unsat) matters; do not spend the portfolio on it
+		o.Status, o.Solver, o.Millis = st, runs[0].name, time.Since(start).Milliseconds()
+		return
+	}
 	if st != "sat" && st != "unsat" {
 		ch := make(chan res, 3)
 		c2, cancel2 := context.WithCancel(ctx)
